@@ -8,7 +8,7 @@ ID = "C04"
 VARIANTS = ["plain"]
 TARGETS = ["ovniemu"]
 LEVEL = "exploration"
-RULE = ("histories over OHx/OHp/OHr/OHc/OHw/OHe: (i) every sequence up to length L on one thread, "
+RULE = ("histories over OHx (on the thread's own or on a spare CPU)/OHp/OHr/OHc/OHw/OHe: (i) every sequence up to length L on one thread, "
         "(ii) every legal prefix followed by one arbitrary event (one and two threads), "
         "(ii-b) the same for two threads sharing ONE physical CPU (oversubscription must be refused), (iii) model-guided random walks on 1-3 threads (own physical CPU each), half with one injected "
         "illegal event or a missing end; oracle = reference FSM verdict vs ovniemu exit status, and for "
@@ -17,9 +17,10 @@ RULE = ("histories over OHx/OHp/OHr/OHc/OHw/OHe: (i) every sequence up to length
 ASSUMPTIONS = ["cross-stream clock ties are not generated (order unspecified)",
                "OHx on a dead thread is outside the quantified space"]
 
-EV = {"x": "OHx", "p": "OHp", "r": "OHr", "c": "OHc", "w": "OHw", "e": "OHe"}
+EV = {"x": "OHx", "X": "OHx", "p": "OHp", "r": "OHr", "c": "OHc", "w": "OHw", "e": "OHe"}
+ALPHA = "xXprcwe"      # X = execute on another (spare) CPU
 NEXT = {  # documented FSM
-    "U": {"x": "R"},
+    "U": {"x": "R"},     # ("X": execute on the spare CPU, same transition; only generated as an injected event)
     "R": {"c": "C", "p": "P", "e": "D"},
     "C": {"p": "P", "e": "D"},
     "P": {"w": "W", "r": "R"},
@@ -32,16 +33,20 @@ def mk_trace(nthreads, seq, shared_cpu=False):
     """seq: list of (thread index, letter).  Every thread has its own CPU, or
     (shared_cpu) all threads execute on physical CPU 0."""
     streams = []
+    ncpus = nthreads + 1
     for i in range(nthreads):
         s = {"loom": "n.0", "pid": 10, "tid": 11 + i, "app": 1, "events": []}
         if i == 0:
-            s["cpus"] = [[k, k] for k in range(nthreads)]
+            s["cpus"] = [[k, k] for k in range(ncpus)]
         streams.append(s)
     clk = 100
     for (ti, a) in seq:
         clk += 7
         if a == "x":
             streams[ti]["events"].append(T.OHx(clk, 0 if shared_cpu else ti))
+        elif a == "X":
+            # execute naming the spare CPU (never the thread's first CPU)
+            streams[ti]["events"].append(T.OHx(clk, ncpus - 1))
         else:
             streams[ti]["events"].append(T.plain(EV[a], clk))
     return {"streams": streams}
@@ -67,7 +72,7 @@ def run_seq(case, ctx):
 def enum_all(maxlen):
     def f(ctx):
         for L_ in range(0, maxlen + 1):
-            for seq in itertools.product("xprcwe", repeat=L_):
+            for seq in itertools.product(ALPHA, repeat=L_):
                 yield {"n": 1, "seq": ["0" + a for a in seq]}
     return f
 
@@ -97,7 +102,7 @@ def enum_prefix_plus_one(nth, maxlen):
             base = ["%d%s" % (t, a) for t, a in pre]
             yield {"n": nth, "seq": base}
             for ti in range(nth):
-                for a in "xprcwe":
+                for a in ALPHA:
                     yield {"n": nth, "seq": base + ["%d%s" % (ti, a)]}
     return f
 
@@ -111,7 +116,7 @@ def enum_shared_cpu(maxlen):
             base = ["%d%s" % (t, a) for t, a in pre]
             yield {"n": 2, "seq": base, "shared": True}
             for ti in range(2):
-                for a in "xprcwe":
+                for a in ALPHA:
                     yield {"n": 2, "seq": base + ["%d%s" % (ti, a)], "shared": True}
     return f
 
@@ -171,10 +176,11 @@ def walks(draw):
     for i in range(n):
         ti = draw(st.integers(0, nth - 1))
         if i == bad_at:
-            a = draw(st.sampled_from("xprcwe"))
+            a = draw(st.sampled_from(ALPHA))
             seq.append((ti, a))
-            if a not in NEXT[states[ti]]:
+            if a.lower() not in NEXT[states[ti]] or (a == "X" and states[ti] != "U"):
                 break
+            a = a.lower()
             states[ti] = NEXT[states[ti]][a]
             continue
         opts = sorted(NEXT[states[ti]])
